@@ -203,12 +203,16 @@ def check_typed(output, pos, v, ht, pre, suf):
         return None, ht
     if isinstance(v, int):
         try:
+            if not re.fullmatch(r'-?\d+', txt):
+                return 'number-literal-of-other-type', {'rendered': ht[:300], 'literal': txt[:60]}
             return (None, ht) if int(txt) == v else ('number-denotes-other-value', {'rendered': ht[:300], 'literal': txt})
         except Exception:
             return 'number-not-a-literal', {'rendered': ht[:300], 'literal': txt[:60]}
     if isinstance(v, float):
         try:
             f = float(txt)
+            if re.fullmatch(r'-?\d+', txt):
+                return 'number-literal-of-other-type', {'rendered': ht[:300], 'literal': txt[:60]}
             ok = (f == v) or (math.isclose(f, v, rel_tol=1e-12))
             return (None, ht) if ok else ('number-denotes-other-value', {'rendered': ht[:300], 'literal': txt})
         except Exception:
@@ -274,7 +278,7 @@ def run_shard(ctx):
     for _ in range(40 if ctx.tier == 'quick' else 600):
         typed.append(r.choice([r.randint(-10 ** 12, 10 ** 12), r.uniform(-1e6, 1e6), r.uniform(-1, 1) * 10 ** r.randint(-12, 18)]))
     benign = {}
-    idx = -1
+    idx = run_sequences(ctx, -1)
     for vi, v in enumerate(values + typed):
         for pos in POSITIONS:
             for output in OUTPUTS:
@@ -332,6 +336,50 @@ def run_shard(ctx):
                 sig = {'output': output, 'failure': k, 'value_class': vclass(w)}
                 d2 = check_value(output, pos, w, benign)[1] if isinstance(v, str) else det
                 acc.fail(sig, {'value': repr(v), 'shrunk': repr(w), 'position': pos, **(d2 if isinstance(d2, dict) else {})})
+
+
+EQUAL_VALUED = [1, True, 1.0, 0, False, 0.0, -1, -1.0, 7, 7.0, 2 ** 31, float(2 ** 31), '1', '1.0', 'True', '', None]
+
+
+def run_sequences(ctx, idx):
+    """Constants that compare equal in Python but are different SQL values (1 / TRUE / 1.0 / '1'), rendered one after
+    the other by ONE renderer object, every rotation of the list: each text must be what a fresh renderer gives."""
+    from mindsdb_sql.render.sqlalchemy_render import SqlalchemyRender
+    from mindsdb_sql.parser import ast as A
+    acc = ctx.acc
+    for output in OUTPUTS[1:]:
+        for rot in range(len(EQUAL_VALUED)):
+            for shape in ('one-per-statement', 'all-in-one-statement'):
+                idx += 1
+                if not ctx.mine(idx):
+                    continue
+                seq = EQUAL_VALUED[rot:] + EQUAL_VALUED[:rot]
+                acc.ev()
+                acc.count('equal_valued_sequences')
+                acc.key('equal-valued', output, rot, shape)
+                try:
+                    if shape == 'one-per-statement':
+                        long_lived = SqlalchemyRender(output)
+                        got = [long_lived.get_string(build('select', v), with_failback=False) for v in seq]
+                        want = [SqlalchemyRender(output).get_string(build('select', v), with_failback=False) for v in seq]
+                    else:
+                        tree = A.Select(targets=[A.Constant(v, alias=A.Identifier(f'c{i}')) for i, v in enumerate(seq)])
+                        got = [SqlalchemyRender(output).get_string(tree, with_failback=False)]
+                        singles = []
+                        for i, v in enumerate(seq):
+                            t1 = SqlalchemyRender(output).get_string(A.Select(targets=[A.Constant(v, alias=A.Identifier(f'c{i}'))]), with_failback=False)
+                            singles.append(re.sub(r'\s+FROM DUAL$', '', re.sub(r'^SELECT\s+', '', t1.strip())))
+                        want = ['SELECT ' + ', '.join(singles) + (' FROM DUAL' if output == 'oracle' else '')]
+                except Exception as e:
+                    acc.count('equal_valued_render_raised:' + type(e).__name__)
+                    continue
+                norm = lambda t: ' '.join(t.split())
+                for k, (g, w) in enumerate(zip(got, want)):
+                    if norm(g) != norm(w):
+                        acc.fail({'output': output, 'failure': 'literal-depends-on-earlier-equal-valued-constant', 'value_class': shape},
+                                 {'sequence': repr(seq[:k + 1] if shape == 'one-per-statement' else seq), 'rendered': g[:300], 'fresh_renderer_gives': w[:300]})
+                        break
+    return idx
 
 
 def replay(path):
